@@ -30,7 +30,7 @@ SMALL = dict(n1=4, n2=3, n3=3, lmax=3)
 
 
 def budget(tier):
-    return 10000 if tier == 'quick' else 120000
+    return 10000 if tier == 'quick' else 400000
 
 
 @st.composite
